@@ -1,4 +1,4 @@
-package main
+package kit
 
 // sigkit: certificates, chains and signature envelopes for the drivers that
 // exercise the real verifier. Everything is minted per run with EC P-256
@@ -26,9 +26,9 @@ import (
 )
 
 const (
-	mtJWS     = jws.MediaTypeEnvelope
-	mtCOSE    = cose.MediaTypeEnvelope
-	mtPayload = "application/vnd.cncf.notary.payload.v1+json"
+	MtJWS     = jws.MediaTypeEnvelope
+	MtCOSE    = cose.MediaTypeEnvelope
+	MtPayload = "application/vnd.cncf.notary.payload.v1+json"
 )
 
 var serialCounter int64 = 1000
@@ -52,7 +52,7 @@ type CertSpec struct {
 	Key        crypto.Signer // optional: reuse key
 }
 
-func newECKey() crypto.Signer {
+func NewECKey() crypto.Signer {
 	k, err := ecdsa.GenerateKey(elliptic.P256(), rand.Reader)
 	if err != nil {
 		panic(err)
@@ -64,7 +64,7 @@ func newECKey() crypto.Signer {
 func Mint(spec CertSpec, parent *Cert) *Cert {
 	key := spec.Key
 	if key == nil {
-		key = newECKey()
+		key = NewECKey()
 	}
 	nb, na := spec.NotBefore, spec.NotAfter
 	if nb.IsZero() {
@@ -115,7 +115,7 @@ func Mint(spec CertSpec, parent *Cert) *Cert {
 	return &Cert{C: c, Key: key}
 }
 
-func name(cn string) pkix.Name {
+func Name(cn string) pkix.Name {
 	return pkix.Name{CommonName: cn, Organization: []string{"Verif"}, Country: []string{"US"}, Province: []string{"WA"}}
 }
 
@@ -134,20 +134,20 @@ func (c Chain) Certs() []*x509.Certificate {
 // leaf) with the given common-name prefix; all valid in [nb, na].
 func NewChain(prefix string, n int, nb, na time.Time) Chain {
 	if n == 1 {
-		return Chain{Mint(CertSpec{Subject: name(prefix + " leaf"), NotBefore: nb, NotAfter: na, Leaf: true}, nil)}
+		return Chain{Mint(CertSpec{Subject: Name(prefix + " leaf"), NotBefore: nb, NotAfter: na, Leaf: true}, nil)}
 	}
 	chain := make(Chain, n)
-	chain[n-1] = Mint(CertSpec{Subject: name(prefix + " root"), NotBefore: nb, NotAfter: na, IsCA: true}, nil)
+	chain[n-1] = Mint(CertSpec{Subject: Name(prefix + " root"), NotBefore: nb, NotAfter: na, IsCA: true}, nil)
 	for i := n - 2; i >= 1; i-- {
-		chain[i] = Mint(CertSpec{Subject: name(fmt.Sprintf("%s inter%d", prefix, i)), NotBefore: nb, NotAfter: na, IsCA: true}, chain[i+1])
+		chain[i] = Mint(CertSpec{Subject: Name(fmt.Sprintf("%s inter%d", prefix, i)), NotBefore: nb, NotAfter: na, IsCA: true}, chain[i+1])
 	}
-	chain[0] = Mint(CertSpec{Subject: name(prefix + " leaf"), NotBefore: nb, NotAfter: na, Leaf: true}, chain[1])
+	chain[0] = Mint(CertSpec{Subject: Name(prefix + " leaf"), NotBefore: nb, NotAfter: na, Leaf: true}, chain[1])
 	return chain
 }
 
 // EnvSpec describes an envelope to sign with notation-core-go.
 type EnvSpec struct {
-	Format      string // mtJWS | mtCOSE
+	Format      string // MtJWS | mtCOSE
 	Chain       Chain
 	Payload     []byte
 	ContentType string
@@ -170,7 +170,7 @@ func SignEnvelope(s EnvSpec) ([]byte, error) {
 	}
 	ct := s.ContentType
 	if ct == "" {
-		ct = mtPayload
+		ct = MtPayload
 	}
 	scheme := s.Scheme
 	if scheme == "" {
